@@ -13,7 +13,7 @@ import gen_exec as G
 class C02(Prop):
     id = "C02"
     driver = "Blocks"
-    lean_modules = ["Pfb.C02.Props", "Pfb.C05.Props", "Pfb.C04.Props", "Pfb.C02.Equiv"]
+    lean_modules = ["Pfb.C02.Props", "Pfb.C05.Props", "Pfb.C04.Props", "Pfb.C02.Equiv", "Pfb.C04.KeepsMissing"]
     theorems = [
         # the analysis side of "no import whose binding is read is ever removed" (proved over the PyCore model,
         # which C05's correspondence ties to _MissingImportFinder): a read import is never reported unused
@@ -21,6 +21,8 @@ class C02(Prop):
         "Pfb.C05.C02_read_import_not_unused_fragC",
         # ... and the rewriter only removes what the scan reports (Blocks model)
         "Pfb.C04.removeAll_subset",
+        # ... and removing what the scan reports raises no new NameError in the reference run (fragment B)
+        "Pfb.C04.C04_tidy_remove_stage_safe_fragB",
         "Pfb.C02.C02_block_env",
         "Pfb.C02.C02_block_env_exec",
         "Pfb.C02.after_eq_foldl",
